@@ -27,8 +27,9 @@ import vlib
 PKG = "internal/dnsforward"
 FILES = ["zz_verif_common_test.go", "zz_verif_c03_test.go"]
 
-KEY_ZONED = "zoned-address-vs-ip-entry"
-KEY_MAPPED = "mapped-address-not-unmapped"
+KEY_IDCASE = "clientid-entry-case-sensitive"
+KEY_MENTRY = "mapped-entry-never-matches"
+KEY_REGEXP = "regexp-rule-lowercased"
 SILENT = ("udp", "dnscrypt")
 
 
@@ -37,111 +38,149 @@ def denial(proto):
 
 
 # ------------------------------------------------------------ classification
-def _entries(strs):
-    out = []
-    for s in strs or []:
-        try:
-            out.append(("ip", ipaddress.ip_address(s)))
-            continue
-        except ValueError:
-            pass
-        try:
-            out.append(("net", ipaddress.ip_network(s, strict=False)))
-            continue
-        except ValueError:
-            out.append(("id", s))
-    return out
-
-
-def literal_blocked(conc, addr, cid):
-    """The client decision if list entries are compared with the client address
-    exactly as presented: an exact-IP entry equals the address only including
-    its zone, an IPv4 entry never matches an IPv4-mapped IPv6 address (which is
-    an IPv6 address for IPv6 prefixes).  This is the hypothesis behind the two
-    known findings; a disagreement is attributed to them only if this
-    hypothesis predicts the observed outcome exactly."""
-    allowed, disallowed = _entries(conc.get("allowed")), _entries(conc.get("disallowed"))
-    allow_mode = len(allowed) > 0
-    lst = allowed if allow_mode else disallowed
-    a = ipaddress.ip_address(addr)
+# A reproduced disagreement is attributed to an open finding only if a model of
+# the code's present behaviour predicts the observed outcome AND repairing
+# exactly that one defect in the model makes the prediction exclude it.  The
+# model works on the concrete lists (Python ipaddress) and on the abstract
+# patterns of the record; it is used for nothing but this attribution.
+def _client_blocked(conc, addr, cid, fix_case=False, fix_mapped=False):
+    a = ipaddress.ip_address(addr.split("%")[0])
+    if a.version == 6 and a.ipv4_mapped is not None:
+        a = a.ipv4_mapped
     cid = (cid or "").lower()
-    hit = False
-    for k, e in lst:
-        if k == "ip" and e == a:
+    if "_" in cid:
+        cid = ""        # an invalid label is no ClientID
+
+    def parse(strs):
+        out = []
+        for e in strs or []:
+            try:
+                x = ipaddress.ip_address(e)
+                if fix_mapped and x.version == 6 and x.ipv4_mapped is not None:
+                    x = x.ipv4_mapped
+                out.append(("ip", x))
+                continue
+            except ValueError:
+                pass
+            try:
+                n = ipaddress.ip_network(e, strict=False)
+                m = n.network_address.ipv4_mapped if n.version == 6 else None
+                if fix_mapped and m is not None and n.prefixlen >= 96:
+                    n = ipaddress.ip_network((m, n.prefixlen - 96), strict=False)
+                out.append(("net", n))
+                continue
+            except ValueError:
+                out.append(("id", e.lower() if fix_case else e))
+        return out
+
+    allowed, disallowed = parse(conc.get("allowed")), parse(conc.get("disallowed"))
+    lst = allowed if allowed else disallowed
+    hit = any((k == "ip" and e == a) or (k == "net" and e.version == a.version and a in e) or
+              (k == "id" and cid != "" and e == cid) for k, e in lst)
+    return (not hit) if allowed else hit
+
+
+ADS, BETA = {"a", "ads"}, {"b", "beta"}
+ADS_NONDIGITS, ADS_DIGITS = {"ar", "adsrv"}, {"a1", "ads1"}
+
+
+def _re_matches(shape, n, lowered):
+    """AccessCore's ReMatches; with lowered set, what the rule means after its
+    text went through strings.ToLower (\\D -> \\d, (?P< -> invalid, dropped)."""
+    if shape == "nondigit":
+        if lowered:
+            return len(n) == 2 and n[1] == "com" and n[0] in ADS_DIGITS
+        return (len(n) >= 2 and n[-1] == "com" and n[0] in ADS | ADS_NONDIGITS and
+                (len(n) > 2 or n[0] in ADS_NONDIGITS) and not any(x in ADS_DIGITS for x in n[:-1]))
+    if shape == "capital":
+        return len(n) == 2 and n[1] == "com" and n[0] in BETA
+    if shape == "named":
+        return (not lowered) and len(n) == 2 and n[1] == "org" and n[0] in ADS | BETA
+    return False
+
+
+def _host_code(hosts, n, q, lowered=False):
+    def suffix(s, n):
+        return len(s) <= len(n) and n[len(n) - len(s):] == s
+
+    def inside(s, n):
+        return any(n[off:off + len(s)] == s for off in range(1, len(n) - len(s)))
+
+    must = may = False
+    for p in hosts or []:
+        if p.get("qt") and p["qt"] != q:
+            continue
+        k, pn = p["k"], p["n"]
+        if k == "exact":
+            hit = n == pn
+        elif k == "domain":
+            hit = suffix(pn, n)
+        elif k == "wild":
+            hit = suffix(pn, n) and len(n) > len(pn)
+            may = may or (not hit and inside(pn, n))
+        elif k == "all":
             hit = True
-        elif k == "net" and e.version == a.version and a in e:
-            hit = True
-        elif k == "id" and cid != "" and e == cid:
-            hit = True
-    return (not hit) if allow_mode else hit
+        elif k == "re":
+            hit = _re_matches(pn[0], n, lowered)
+        else:
+            hit = False
+        must = must or hit
+    return 1 if must else 2 if may else 0
+
+
+def _predict(level, proto, bad_id, ex, hv):
+    if level == "decision":
+        return {str(ex).lower()}
+    den = denial(proto)
+    if bad_id:
+        return {"servfail"} | ({den} if ex or hv else set())
+    if ex or hv == 1:
+        return {den}
+    return {den, "served"} if hv == 2 else {"served"}
 
 
 def classify(rec):
-    """Return the known-finding key explaining a reproduced disagreement, or
-    None.  rec needs: form, level, proto, concrete lists, concrete address (in
-    the disagreeing form) and the plain one, ClientID, got, plain_out."""
-    form = rec.get("form")
-    if form not in ("zoned", "mapped") or rec.get("plain_out") is None:
+    """rec: level, proto, conc (concrete lists), hosts (abstract, effective),
+    addr, id (concrete), name (labels), qtype, got."""
+    if rec.get("level") not in ("decision", "handler") or not rec.get("addr"):
         return None
-    # The form must be what makes the difference: the plain form of the same
-    # request behaves as the spec says (direction A) / differently (traces).
-    if rec.get("plain_agrees") is False or (rec.get("plain_agrees") is None and rec["plain_out"] == rec["got"]):
-        return None
-    key = KEY_ZONED if form == "zoned" else KEY_MAPPED
     try:
-        lit = literal_blocked(rec["conc"], rec["addr"], rec.get("id"))
-        plain = literal_blocked(rec["conc"], rec["plain_addr"], rec.get("id"))
-    except ValueError:
+        bad_id = "_" in (rec.get("id") or "")
+
+        def pred(fix):
+            ex = _client_blocked(rec["conc"], rec["addr"], rec.get("id"), fix == KEY_IDCASE, fix == KEY_MENTRY)
+            hv = _host_code(rec.get("hosts"), rec.get("name") or [], rec.get("qtype"), lowered=fix != KEY_REGEXP)
+            return _predict(rec["level"], rec["proto"], bad_id, ex, hv)
+
+        got = rec["got"]
+        if got not in pred(None):
+            return None
+        for key in (KEY_IDCASE, KEY_MENTRY, KEY_REGEXP):
+            if got not in pred(key):
+                return key
+    except (ValueError, KeyError, IndexError, TypeError):
         return None
-    got, plain_out = rec["got"], rec["plain_out"]
-    if rec["level"] == "decision":
-        return key if got == str(lit).lower() and plain_out == str(plain).lower() else None
-    if rec["level"] == "linklocal":
-        return key if got == (denial(rec["proto"]) if lit else "served") else None
-    den = denial(rec["proto"])
-    if lit:
-        pred = {den}
-    elif not plain:
-        pred = {plain_out}          # same name, client not excluded either way
-    else:
-        pred = {den, "served"}      # the name's verdict is hidden behind the plain denial
-    return key if got in pred else None
-
-
-def plain_of(addr):
-    a = ipaddress.ip_address(addr)
-    if a.version == 6 and a.ipv4_mapped is not None:
-        return str(a.ipv4_mapped)
-    return addr.split("%")[0]
+    return None
 
 
 def rec_of_bad_row(r):
     """Classification record of a direction-A row."""
     req = r["req"]
-    addr = req.get("addr", "")
-    form = r["areq"]["form"]
-    if req.get("level") == "transport" and form == "mapped":
-        addr = "::ffff:" + addr
     level = r["level"]
-    if level == "observers":
-        # The outcome was admissible, the observers moved wrongly: never a
-        # matter of address forms.
-        form = "plain"
-    if level in ("transport", "observers"):
+    if level in ("transport",):
         level = "handler"
-    if req.get("level") == "linklocal":
-        level = "linklocal"
-    return {"form": form, "level": level, "proto": req.get("proto"), "conc": r["conc"],
-            "addr": addr, "plain_addr": plain_of(addr) if addr else addr, "id": req.get("id"),
-            "got": str(r["got"]).lower(), "plain_out": str(r.get("plain_out")).lower() if r.get("plain_out") is not None else None,
-            "plain_agrees": r.get("plain_agrees")}
+    return {"level": level, "proto": req.get("proto"), "conc": r["conc"], "hosts": r["cfg"]["hosts"],
+            "addr": req.get("addr", ""), "id": req.get("id"), "name": r["areq"].get("name"), "qtype": r["areq"].get("qtype"),
+            "got": str(r["got"]).lower()}
 
 
 WHAT = {
-    KEY_ZONED: "a client whose IPv6 address carries a zone (fe80::1%eth0) is not matched by an exact-IP list entry "
-               "for that address (a /128 CIDR entry does match it): disallowed link-local clients are served, allowed ones refused",
-    KEY_MAPPED: "a client address in IPv4-mapped IPv6 form (::ffff:a.b.c.d, reaches the server through a forwarding header "
-                "of a trusted DoH proxy) is not matched by IPv4 entries of the access lists",
+    KEY_IDCASE: "a ClientID entry of the allowed/disallowed list written with a capital letter never matches (entries are stored "
+                "verbatim, the ClientID of a request is always lower-cased): the disallowed client is served, the allowed one refused",
+    KEY_MENTRY: "an entry written in IPv4-mapped IPv6 form (::ffff:a.b.c.d, ::ffff:a.b.c.0/120) matches no client, neither the "
+                "mapped nor the plain form of its address (clients are unmapped, entries are not)",
+    KEY_REGEXP: "a /regexp/ rule of blocked_hosts is lower-cased as text: \\D, \\S, \\W change meaning, (?P<name>..) becomes "
+                "invalid and the rule is dropped silently",
 }
 
 
@@ -157,8 +196,10 @@ def tlc_stage(ctx):
 
     t_mc = threading.Thread(target=job, args=("mc", "Access.mc.cfg"), kwargs=dict(workers=4, coverage=True, timeout=900, heap="3g"))
     t_mc.start()
+    t_h = threading.Thread(target=job, args=("hosts", "Access.hosts.cfg"), kwargs=dict(workers=2, timeout=300, heap="2g"))
+    t_h.start()
     job("clients", "Access.clients.cfg", workers=4, timeout=600, heap="3g")
-    job("hosts", "Access.hosts.cfg", workers=2, timeout=300, heap="2g")
+    t_h.join()
     return res, errs, t_mc
 
 
@@ -279,8 +320,13 @@ def trace_disagreements(ctx, rows, verdict):
         if r["k"] in ("set", "load"):
             by_sig.setdefault(("set",), []).append(i)
             continue
+        st = setline[i]
+        trig = "".join(sorted({"I" for e in st["allowed"] + st["disallowed"] if e["k"] == "id" and e["sp"] == "mixed"} |
+                              {"M" for e in st["allowed"] + st["disallowed"] if e["k"] != "id" and e["sp"] == "mapped"} |
+                              {"R" for p in st["reported"]["hosts"] if p["k"] == "re"} |
+                              ({"B"} if r["areq"]["id"] == "~bad" else set())))
         sig = (r["lvl"], r["areq"]["form"], r["areq"]["proto"] in SILENT, r["out"], r.get("plain_out"),
-               json.dumps(r.get("d"), sort_keys=True))
+               json.dumps(r.get("d"), sort_keys=True), trig)
         by_sig.setdefault(sig, []).append(i)
     steps, owner = [], []
     for sig, idx in by_sig.items():
@@ -313,11 +359,9 @@ def trace_disagreements(ctx, rows, verdict):
         line, st = rows[i - 1], setline[i]
         req = line["req"]
         addr = req["addr"]
-        if req["level"] == "transport" and line["areq"]["form"] == "mapped":
-            addr = "::ffff:" + addr
-        rec = {"form": line["areq"]["form"], "level": "handler", "proto": req["proto"], "conc": st["conc"],
-               "addr": addr, "plain_addr": plain_of(addr), "id": req.get("id"), "got": line["out"],
-               "plain_out": line.get("plain_out")}
+        rec = {"level": "handler", "proto": req["proto"], "conc": st["conc"], "hosts": st["reported"]["hosts"],
+               "addr": addr, "id": req.get("id"), "name": line["areq"]["name"], "qtype": line["areq"]["qtype"],
+               "got": line["out"]}
         key = classify(rec)
         record = {"trace_line": i, "line": line, "set": st, "classification": rec,
                   "history": history[i], "before": before[i]}
